@@ -99,6 +99,11 @@ const TARGETS: &[Target] = &[
     Target { name: "compress_regex", file: "src/cut_str.rs", impl_trait: None, impl_self: None,
              func: "compress_delimiter_with_regex", calls: &[("replace_all", "rx_replace_all")], deps: &[],
              imports: "Model.Scan Model.Regex Model.Opt Model.CutStr Tie.RsRegex", ret_muts: false, fuel: "" },
+    Target { name: "print_field", file: "src/stream.rs", impl_trait: None, impl_self: None, func: "print_field", calls: &[], deps: &[],
+             imports: "Model.Scan Model.Regex Model.Opt Model.Stream Tie.RsOpt Tie.RsList", ret_muts: false, fuel: "" },
+    Target { name: "print_bof", file: "src/stream.rs", impl_trait: None, impl_self: None, func: "print_bof",
+             calls: &[("matches", "gen_ub_matches"), ("print_field", "gen_print_field")], deps: &["ub_matches", "print_field"],
+             imports: "Model.Scan Model.Regex Model.Opt Model.Stream Tie.RsOpt Tie.RsStr Tie.RsList", ret_muts: false, fuel: "" },
     Target { name: "maybe_replace", file: "src/cut_str.rs", impl_trait: None, impl_self: None,
              func: "maybe_replace_delimiter", calls: &[("replace_all", "rx_replace_all")], deps: &[],
              imports: "Model.Scan Model.Regex Model.Opt Model.CutStr Tie.RsRegex", ret_muts: false, fuel: "" },
@@ -119,7 +124,7 @@ const TARGETS: &[Target] = &[
 const WRITE_MAYBE_AS_JSON: &str = "($writer:ident,$to_print:ident,$as_json:expr)=>{{if$as_json{$writer.write_all(serde_json::to_string(std::str::from_utf8(&$to_print)?)?.as_bytes())?;}else{$writer.write_all(&$to_print)?;}}};";
 
 #[derive(Clone, PartialEq, Debug)]
-enum Ty { I32, Usize, Bool, Side, UB, UBL, Regex, Trim, Range, Opt(Box<Ty>), List(Box<Ty>), OptRec, FastRec, BType, Bytes, Byte, Str, Pair(Box<Ty>, Box<Ty>), Other }
+enum Ty { I32, Usize, Bool, Side, UB, UBL, Regex, Trim, StreamRec, Range, Opt(Box<Ty>), List(Box<Ty>), OptRec, FastRec, BType, Bytes, Byte, Str, Pair(Box<Ty>, Box<Ty>), Other }
 
 type R<T> = std::result::Result<T, String>;
 
@@ -160,7 +165,7 @@ fn coq_ty(t: &Ty) -> Option<String> {
         Ty::I32 | Ty::Usize => "Z".into(), Ty::Bool => "bool".into(), Ty::Side => "side".into(), Ty::UB => "ubound".into(), Ty::UBL => "ublist".into(),
         Ty::Regex => "(rx * bool)%type".into(), Ty::Trim => "trimk".into(), Ty::Range => "(Z * Z)%type".into(),
         Ty::Opt(x) => format!("(option {})", coq_ty(x)?), Ty::List(x) => format!("(list {})", coq_ty(x)?),
-        Ty::OptRec => "opt".into(), Ty::FastRec => "gfopt".into(), Ty::BType => "btype".into(), Ty::Bytes | Ty::Str => "bytes".into(), Ty::Byte => "byte".into(),
+        Ty::OptRec => "opt".into(), Ty::FastRec => "gfopt".into(), Ty::StreamRec => "gsopt".into(), Ty::BType => "btype".into(), Ty::Bytes | Ty::Str => "bytes".into(), Ty::Byte => "byte".into(),
         Ty::Pair(a, b) => format!("({} * {})%type", coq_ty(a)?, coq_ty(b)?), Ty::Other => return None,
     })
 }
@@ -233,6 +238,18 @@ fn field(recv: &Ty, name: &str) -> Option<(&'static str, Ty)> {
             _ => return None,
         });
     }
+    if *recv == Ty::StreamRec {
+        // src/stream.rs: struct StreamOpt  ->  Tie/RsOpt.v: Record gsopt (ForwardBounds as the list it holds)
+        return Some(match name {
+            "delimiter" => ("gs_delim", Ty::Byte),
+            "replace_delimiter" => ("gs_repl", Ty::Opt(Box::new(Ty::Byte))),
+            "join" => ("gs_join", Ty::Bool),
+            "eol" => ("gs_eol", Ty::Byte),
+            "bounds" => ("gs_bounds", Ty::UBL),
+            "fallback_oob" => ("gs_fallback", Ty::Opt(Box::new(Ty::Bytes))),
+            _ => return None,
+        });
+    }
     if *recv == Ty::OptRec {
         // src/options.rs: struct Opt  ->  Model/Opt.v: Record opt
         return Some(match name {
@@ -292,6 +309,7 @@ fn ty_of_type(t: &Type) -> (String, Ty) {
                 "UserBoundsList" => ("ublist".into(), Ty::UBL),
                 "Opt" => ("opt".into(), Ty::OptRec),
                 "FastOpt" => ("gfopt".into(), Ty::FastRec),
+                "StreamOpt" => ("gsopt".into(), Ty::StreamRec),
                 "Trim" => ("trimk".into(), Ty::Trim),
                 "Regex" => ("(rx * bool)%type".into(), Ty::Regex),
                 "u8" => ("byte".into(), Ty::Byte),
@@ -401,6 +419,7 @@ impl Cx {
                 "split_once" => Ty::Opt(Box::new(Ty::Pair(Box::new(Ty::Str), Box::new(Ty::Str)))),
                 "find_iter" if self.ty(&m.receiver) == Ty::Regex => Ty::List(Box::new(Ty::Range)),
                 "find_iter" => Ty::List(Box::new(Ty::Usize)),
+                "get" if self.ty(&m.receiver) == Ty::UBL => Ty::Opt(Box::new(Ty::Other)),
                 "next" | "last" => match self.ty(&m.receiver) { Ty::List(t) => Ty::Opt(t), _ => Ty::Other },
                 "or" => self.ty(&m.receiver),
                 "start" | "end" if self.ty(&m.receiver) == Ty::Range => Ty::Usize,
@@ -510,6 +529,7 @@ impl Cx {
                     ("is_negative", 0) => format!("({} <? 0)", recv),
                     ("cmp", 1) => format!("(i32_cmp {} {})", recv, args[0]),
                     ("clone", 0) | ("into_iter", 0) | ("iter", 0) | ("as_bytes", 0) | ("as_ref", 0) | ("to_owned", 0) | ("as_deref", 0) | ("cloned", 0) => recv,
+                    ("get", 1) if self.ty(&m.receiver) == Ty::UBL => format!("(nth_error (items {}) (Z.to_nat {}))", recv, args[0]),
                     ("enumerate", 0) => format!("(enumerate_z (to_list {}))", recv),
                     ("rev", 0) => format!("(List.rev {})", recv),
                     ("len", 0) => format!("(Z.of_nat (length {}))", recv),
